@@ -137,6 +137,8 @@ func c02Strings() []string {
 		out = append(out, cur...)
 		prev = cur
 	}
+	// pointer-looking strings with escape pairs (a quoted VALUE keeps its spelled text) and what they would decode to
+	out = append(out, "/a~1b", "/a~0b", "/~01", "/a/b", "/a~b", "/~1")
 	return out
 }
 
